@@ -108,6 +108,8 @@ def size_real(rp, lc, sess, label, schema, pd_args, smt_env, rcfg=None):
 def monitor_size(row, pd, smt, res):
     """the property on the real code's output (independent of the model)"""
     if not isinstance(res, dict):
+        if res[1] not in ('ValueError', 'RuntimeError', 'unresolvable'):
+            return ('pilot-not-turned-into-a-job', '%s for %s' % (res[1], pd))
         return None
     cpn = row['cpn'] * smt
     if not cpn:
@@ -307,6 +309,10 @@ def run(ctx):
                 if r['gpn'] and rng.random() < 0.6:
                     pdd['gpus'] = rng.choice([1, r['gpn'], r['gpn'] + 1, 5 * k * r['gpn'] + 1])
                     dist['gpu_bound'] += 1
+                elif not r['gpn'] and rng.random() < 0.4:
+                    # GPUs asked for on a platform that declares none per node: sized by cores, the GPU count is passed on
+                    pdd['gpus'] = rng.choice([1, 4, 9])
+                    dist['gpus_on_platform_without'] = dist.get('gpus_on_platform_without', 0) + 1
                 dist['by_cores'] += 1
             if smt_env: dist['smt_env'] += 1
             res = size_real(rp, lc, sess, r['label'], r['schema'], pdd, smt_env, rcfg=bulk_rcfg)
